@@ -74,6 +74,14 @@ for tol in (1e-3, 1e-6, 1e-10):
         arr = np.array(combo + (combo[0] * 3,), dtype=np.float64)
         R.check("compress() round trip within tolerance; non-finite kept or rejected", f"compress float64 tol={tol}",
                 {"dtype": "float64", "array": [repr(x) for x in arr.tolist()], "tolerance": tol}, lambda arr=arr, tol=tol: check(arr, tol))
+# long arrays (so that the fixed-point chain wins on size) with one value at the edge of the 32-bit fixed-point range
+for dt in (np.float32, np.float64):
+    for edge in (21474836.0, -21474836.0, 2147483.6, 214748.36, 2147483647.0, 2.1474836e9, 16777217.0, 1e15):
+        for fill in (0.25, 0.5, 1.125):
+            for tol in (1e-2, 1e-6):
+                arr = np.array([edge] + [fill] * 60, dtype=dt)
+                R.check("compress() round trip within tolerance; non-finite kept or rejected", f"compress {dt.__name__} at the fixed-point range edge",
+                        {"dtype": dt.__name__, "array": f"[{edge}] + [{fill}] * 60", "tolerance": tol}, lambda arr=arr, tol=tol: check(arr, tol))
 for dt, vals in INTS.items():
     for n in (1, 2, 3):
         for combo in itertools.product(vals, repeat=n):
